@@ -36,7 +36,12 @@ TVSend == /\ l <= Len(Rec) /\ Rec[l].ev = "send"
           /\ viol' = AddViol(viol, SendViol(Rec[l]), Rec[l].id)
           /\ judged' = judged + 1 /\ l' = l + 1
 TVOther == /\ l <= Len(Rec) /\ Rec[l].ev \in {"reset", "end"} /\ l' = l + 1 /\ UNCHANGED <<viol, judged>>
-TVNext == TVSend \/ TVOther
+\* the process under test was killed by a signal while this case ran (recorded by the driver; `begin` marks the letter that
+\* was in progress): judged like any other observation -- whatever the property, an input that kills the process breaks it
+TVCrashAny == /\ l <= Len(Rec) /\ Rec[l].ev \in {"crash", "begin"}
+              /\ viol' = IF Rec[l].ev = "crash" THEN AddViol(viol, {"ANY/process-killed-by-signal-" \o Str(Rec[l].signal)}, Rec[l].id) ELSE viol
+              /\ l' = l + 1 /\ UNCHANGED judged
+TVNext == TVSend \/ TVOther \/ TVCrashAny
 TVSpec == TVInit /\ [][TVNext]_tvars
 Post == PostOK
 Report == ReportAt(l, judged, viol)
